@@ -162,9 +162,18 @@ def adjust_key_parity_contract(variant='call'):
         params = {'key_in': 'bytes<16>|bytes<24>'}
     elif variant == 'badlen':
         requires = ['len(key_in) != 16 and len(key_in) != 24']
+    elif variant == 'all_bytes':
+        # ground instances (same obligations, concrete keys): every byte value 0..255 occurs (16 keys of 16 consecutive values), plus
+        # 24-byte keys with K1 == K2, K2 == K3, K1 == K3 (legal: two-key TDEA spelled out) and keys that differ in parity bits only.
+        # z3 proves the symbolic instances but does not find counter-models for a wrong parity rule; these instances decide it.
+        lit = lambda b: 'const:b"' + ''.join('\\x%02x' % x for x in b) + '"'
+        keys = [bytes(range(16 * i, 16 * i + 16)) for i in range(16)]
+        k1, k2, k3 = bytes(range(1, 9)), bytes(range(17, 25)), bytes(range(33, 41))
+        keys += [k1 + k1 + k3, k1 + k2 + k2, k1 + k2 + k1, k1 + k2 + k3, k1 + bytes(x ^ 1 for x in k1), k1 + k2 + bytes(x ^ 1 for x in k2)]
+        params = {'key_in': '|'.join(lit(k) for k in keys)}
     extra = {}
-    if variant == 'tdes':
-        # the same statement byte by byte (single-byte obligations: a wrong parity rule is refuted at once)
+    if variant in ('tdes', 'all_bytes'):
+        # the same statement byte by byte
         extra = {'parity_first': 'result[0] == spec.modes.odd_parity_fold(key_in[0])',
                  'parity_last': 'result[len(key_in) - 1] == spec.modes.odd_parity_fold(key_in[len(key_in) - 1])'}
     return Contract(AKP, params=params, requires=requires,
@@ -309,6 +318,7 @@ def units(prop, tier):
         out.append(pyvc_unit(prop, 'factory.create_cipher.AES', lambda: create_cipher_registry('AES', True), [CC], weight=2))
         out.append(pyvc_unit(prop, 'factory.create_cipher.DES3', lambda: create_cipher_registry('DES3', False), [CC]))
         out.append(pyvc_unit(prop, 'factory.DES3.adjust_key_parity', lambda: registry(akp='tdes'), [AKP], weight=4))
+        out.append(pyvc_unit(prop, 'factory.DES3.adjust_key_parity_all_bytes', lambda: registry(akp='all_bytes'), [AKP]))
         out.append(pyvc_unit(prop, 'factory.DES3.adjust_key_parity_badlen', lambda: registry(akp='badlen'), [AKP]))
         out.append(pyvc_unit(prop, 'factory.DES3.parity_lemma', lambda: registry(akp='lemma'), ['spec.modes.lemma_parity']))
     return out
